@@ -273,5 +273,5 @@ def run_one(sc):
 
 
 def replay(ctx, path):
-    print(json.dumps(json.load(open(path)), indent=1)[:3000])
-    return 1
+    import sys
+    return common.replay_by_rerun(ctx, path, sys.modules[__name__])
